@@ -19,7 +19,7 @@ func (ex *Exec) verifyClosure(st *State, clo *Closure, ord int, ls *LoopSpec) {
 	for g := range ex.cs.Ghost {
 		ex.ghostHavoc(st, g)
 	}
-	sig := ex.typeOf(lit).Underlying().(*types.Signature)
+	sig := under(ex.typeOf(lit)).(*types.Signature)
 	var args []Val
 	names := map[string]Val{}
 	for i := 0; i < sig.Params().Len(); i++ {
